@@ -91,6 +91,19 @@ func (this *zzCanaryTail3) Read(in *io.DataInputX) {
 	}
 }
 
+type zzCanaryShortTail struct{ a, b, c int64 }
+
+// takes a present tail of two small decimals (2 bytes) for a missing one
+func (this *zzCanaryShortTail) zzRead(in *io.DataInputX) {
+	din := io.NewDataInputX(in.ReadBlob())
+	this.a = din.ReadLong()
+	if din.Available() < 4 {
+		return
+	}
+	this.b = din.ReadDecimal()
+	this.c = din.ReadDecimal()
+}
+
 func zzCanaryErr(s string) int {
 	v, err := strconv.Atoi(s)
 	if err != nil {
@@ -104,6 +117,7 @@ func zzCanaryErr(s string) int {
 		{Rule: "C03.countlink", Sub: "zzCanaryCount"},
 		{Rule: "C03.errcheck", Sub: "zzCanaryErr"},
 		{Rule: "C03.selfdelim", Sub: "zzCanaryTail3"},
+		{Rule: "C03.tail-threshold", Sub: "zzCanaryShortTail"},
 	}}}
 }
 
@@ -129,6 +143,8 @@ func runC03(p *core.Program, r *core.Report) {
 	c03EmptyBlob(p, r, "C03.empty-blob", "lang/pack")
 	r.Rule("C03.in-place", "decoders store what they read into the container itself (no decode into a range copy, no append after a full-length make)", 60)
 	decodeInPlace(p, x, r, "C03.in-place", []string{"lang/pack"})
+	r.Rule("C03.tail-threshold", "an optional tail is not taken for missing because little is left: a byte threshold on what is left of the decoder's own blob is no larger than the shortest encoding of the reads it guards", 0)
+	tailGuardRule(p, r, "C03.tail-threshold", "lang/pack")
 	r.Rule("C03.order", "record containers carry the inner packs in the order given: no function taking or returning a list of packs hands it to a sorting, shuffling or reversing routine", 1)
 	keepOrderRule(p, r, "C03.order", []string{"lang/pack"}, "Pack")
 	checkRegistry(p, r, "C03.registry", "lang/pack", "CreatePack", "Pack", "GetPackType")
